@@ -17,6 +17,8 @@ import Driver.CMSpec
 import Driver.Blocks
 import Driver.Inlines
 import Driver.AstTrace
+import Driver.Attribute
+import Driver.ExtDecline
 namespace Driver
 
 def handle (line : String) : String :=
@@ -41,6 +43,8 @@ def handle (line : String) : String :=
   | "blocks" :: rest => handleBlocks rest
   | "inlines" :: rest => handleInlines rest
   | "asttrace" :: rest => handleAstTrace rest
+  | "attribute" :: rest => handleAttribute rest
+  | "extdecline" :: rest => handleExtDecline rest
   | _ => bad
 
 partial def loop (hin hout : IO.FS.Stream) : IO Unit := do
